@@ -30,6 +30,14 @@ def panic_sites(ctx):
 
 def r1(ctx, only=None, rule_prefix=""):
     sites = panic_sites(ctx)
+    if only is None:
+        # D6: `self.index - 1` in drop_lexem is safe iff the cursor analysis proves the cursor never falls below its initial value
+        import cursor
+        fns, summ, graphs = cursor.analyse(ctx.prog)
+        low = summ.get("parser::Parser::parse", {}).get("low")
+        for s in sites:
+            if s.fn == "parser::Parser::drop_lexem" and s.kind == "assert:Overflow:Sub" and not s.discharged and low is not None and low >= 0:
+                s.discharged = "D6 the cursor analysis T proves the parser cursor never falls below its value at the entry of parse"
     if only is not None:
         sites = [s for s in sites if only(s)]
     table = panics.load_table()
@@ -201,9 +209,12 @@ EXPLANATION = (
     "re-derives its guard on this run (dominating is_some/is_ok/is_none/is_err, length or contains_key test, "
     "comparison before a subtraction, non-empty test, valid constant regex or time component, counter increment, "
     "constant arithmetic) or it is listed, by a line-number-free key with a reason, in rules/panic_sites.json; "
-    "(R2) parser cursor analysis: next_lexem/drop_lexem are the only writers of the cursor, no path lets the "
-    "cursor fall below its entry value, every loop cycle and recursion cycle of the parser consumes at least one "
-    "lexem, and every other loop matches a progress idiom; (R3) parse error -> 2, error count 0 -> 0 / else 1, "
+    "(R2) progress: next_lexem/drop_lexem are the only writers of the parser cursor; a variant-sensitive product graph "
+    "(basic block x possible enum variants) of every parser method, with callee summaries per return class, shows "
+    "that no feasible cycle has net cursor delta <= 0, that the cursor never falls below its value at the entry of "
+    "parse (so drop_lexem cannot underflow) and that every recursion cycle consumes a lexem first; the same graph "
+    "for Lexer::next_lexem shows every cycle advances (input_index, char_index) and every returned lexem consumed a "
+    "character; every other loop of the crate matches a progress idiom; (R3) parse error -> 2, error count 0 -> 0 / else 1, "
     "error_exit -> stderr + exit(2), no other exit site; (R4) the search runs only in the Ok arm of the parse; "
     "(R5) grammar functions never return Ok(None). Sound relative to the frozen panicking-API table; panics "
     "inside third-party crates and wall-clock bounds are not decided.")
@@ -216,4 +227,5 @@ ASSUMPTIONS = [
     "debug-build pointer alignment/null checks inserted by rustc are not counted as panic sites",
 ]
 NOT_DECIDED = ["that every malformed query is rejected (needs the grammar, not the code shape)", "wall-clock bounds of a search",
+               "termination of third-party code and of directory walks over changing trees",
                "panics inside third-party crates", "blocking reads of special files (FIFOs) by content columns"]
